@@ -452,7 +452,9 @@ class StreamModel(Model):
         st.assume(self.seq_of_list_raw(res) ==
                   self.MAPQ(f, self.seq_of_list_raw(src)))
         if kind == "gen":
-            return VStream(self.OFSEQ(self.seq_of_list_raw(res)))
+            out = VStream(self.OFSEQ(self.seq_of_list_raw(res)))
+            out.aslist = res
+            return out
         return res
 
     # ---- spec-level helpers ---------------------------------------------------
